@@ -362,6 +362,8 @@ def run_check(mod, tier, seed, only_idx=None, replay_case=None):
             sigs.update(res['sigs'])
             for r in res['inconclusive']:
                 inconc[r.split(':')[0][:80]] += 1
+                if r.startswith('harness-exception') and obs.get('harness_exceptions', 0) <= 1:
+                    sys.stderr.write('HARNESS-EXCEPTION in case %s: %s\n' % (res['idx'], r))
                 if len(samples) < 0:
                     pass
             if not res['violations'] and not res['inconclusive']:
